@@ -280,7 +280,11 @@ namespace options
             }
         }
 
-        s << "usage: " << app_name_;
+        // The synopsis is wrapped according to the write position of the stream, so it is formatted
+        // into a stream of its own. Otherwise the text would depend on what s already contains.
+        std::stringstream synopsis;
+
+        synopsis << "usage: " << app_name_;
 
         std::stringstream usage;
 
@@ -320,10 +324,10 @@ namespace options
         {
             out = out.substr(1);
 
-            nitro::io::terminal::format_padded(s, out, 8 + app_name_.size(), 80);
+            nitro::io::terminal::format_padded(synopsis, out, 8 + app_name_.size(), 80);
         }
 
-        s << std::endl << std::endl;
+        s << synopsis.str() << std::endl << std::endl;
 
         if (!about_.empty())
         {
